@@ -80,6 +80,8 @@ EvRestart == /\ IsEv("Restart") /\ closed /\ closed' = FALSE
 EvRestartRet == /\ IsEv("RestartRet") /\ Ev.ok /\ lifeCalled' = FALSE
                 /\ UNCHANGED <<maxT, cap, sub, run, fin, closed, mp>>
 
+EvResetRet == IsEv("ResetRet") /\ UNCHANGED <<maxT, cap, sub, run, fin, lifeCalled, closed, mp>>
+
 EvCount == /\ IsEv("Count")
            /\ (~lifeCalled) => Ev.n <= maxT       \* while it accepts work: never more workers than the maximum
            /\ UNCHANGED <<maxT, cap, sub, run, fin, lifeCalled, closed, mp>>
@@ -93,7 +95,7 @@ EvEnd == /\ IsEv("End")
          /\ (Ev.outcome = "done") => (AllAcceptedFinished /\ \A i \in AllIds : sub[i] # "called")
          /\ UNCHANGED <<maxT, cap, sub, run, fin, lifeCalled, closed, mp>>
 
-Next == EvRestart \/ EvRestartRet \/ EvReset \/ EvBegin \/ EvSubmitCall \/ EvSubmitRet \/ EvTaskRun \/ EvTaskEnd \/ EvLifeCall \/ EvLifeRet
+Next == EvRestart \/ EvRestartRet \/ EvResetRet \/ EvReset \/ EvBegin \/ EvSubmitCall \/ EvSubmitRet \/ EvTaskRun \/ EvTaskEnd \/ EvLifeCall \/ EvLifeRet
         \/ EvCount \/ EvFuture \/ EvEnd
 Spec == Init /\ [][Next]_vars
 ExactlyOnce == \A i \in AllIds : run[i] <= 1
